@@ -225,6 +225,15 @@ func c18CmdCheck(c c18CmdCase) *kit.Verdict {
 		return v
 	}
 	v.Label("reference=accept")
+	if res.Err != nil && c.Origin != "canonical" {
+		// parsing is allowed to refuse what it does not understand (the statement: fails or returns exactly the value);
+		// only canonical renderings must be accepted. What matters: nothing was sent
+		if len(res.Writes) > 0 {
+			return v.Failf("%s\nrefused with %v, but %d frames had been written", line, res.Err, len(res.Writes))
+		}
+		v.Label("refused-although-reference-accepts")
+		return v
+	}
 	if res.Err != nil {
 		return v.Failf("%s\nthe %s string %q is valid but the command failed: %v", line, c.Opt, clip(c.Input), res.Err)
 	}
@@ -237,7 +246,7 @@ func c18CmdCheck(c c18CmdCase) *kit.Verdict {
 func TestC18Commands(t *testing.T) {
 	kit.Run(t, kit.Spec[c18CmdCase]{
 		Prop: "C18",
-		Rule: "option strings (canonical renderings, mutated renderings, arbitrary strings - the generators of the parser-level tests) given to full commands on the virtual wire in raw-IP mode: --ports / --ports-file (tcp, udp), --rate (icmp), --flags (tcp), --ipflags (icmp), --payload (udp), --exclude (icmp over a /28). Oracle: reference refuses => the command fails and writes no frame; reference accepts => the command succeeds and the frames carry exactly the denoted value (ports probed as a multiset, TCP flag bits, IP flag bits, payload bytes, addresses minus exclusions). non-trivial: always; distinct by case",
+		Rule: "option strings (canonical renderings, mutated renderings, arbitrary strings - the generators of the parser-level tests) given to full commands on the virtual wire in raw-IP mode: --ports / --ports-file (tcp, udp), --rate (icmp), --flags (tcp), --ipflags (icmp), --payload (udp), --exclude (icmp over a /28). Oracle: reference refuses => the command fails and writes no frame; reference accepts => the frames carry exactly the denoted value (a non-canonical string may also be refused, then nothing is sent; canonical renderings must be accepted) (ports probed as a multiset, TCP flag bits, IP flag bits, payload bytes, addresses minus exclusions). non-trivial: always; distinct by case",
 		Gen: func(t *rapid.T) c18CmdCase {
 			c := c18CmdCase{Opt: rapid.SampledFrom([]string{"ports", "ports-file", "rate", "tcp-flags", "ip-flags", "payload", "exclude"}).Draw(t, "option")}
 			origin := rapid.SampledFrom([]string{"canonical", "mutated", "mutated", "arbitrary"}).Draw(t, "origin")
